@@ -25,44 +25,45 @@ pub fn check_text(text: &str, origin: &Value, stats: &mut Stats) -> Result<Optio
             return Ok(None);
         }
     };
-    let a = f::atom_stream(text);
-    let b = f::atom_stream(&out);
-    // comments inside metadata annotations: classify separately (one root cause: they are not anchored)
-    if a != b {
-        let meta = f::metadata_comments(text);
-        if !meta.is_empty() && f::without(&a, &meta) == f::without(&b, &meta) {
+    let a0 = f::atom_stream(text);
+    let b0 = f::atom_stream(&out);
+    // Two families of comments have known anchoring problems and are classified first (each family is
+    // one root cause, listed in known_findings.json): comments inside metadata annotations and comments
+    // inside verbatim payloads.  All remaining comments are held to the full obligations.
+    let meta = f::metadata_comments(text);
+    let verb: Vec<Atom> = f::verbatim_slices(text).iter().flat_map(|s| f::comments_only(&f::atom_stream(s))).collect();
+    if f::comments_only(&a0) != f::comments_only(&b0) {
+        let (a1, b1) = (f::without(&a0, &meta), f::without(&b0, &meta));
+        if !meta.is_empty() && f::comments_only(&a1) == f::comments_only(&b1) {
             return Err(Fail::new(
                 "comment-inside-metadata-not-preserved",
-                "comments written inside `@[ … ]` / `@( … )` to stay where they are",
-                f::first_diff(&a, &b),
+                "comments written inside `@[ … ]` / `@( … )` to be kept",
+                f::first_diff(&f::comments_only(&a0), &f::comments_only(&b0)),
+            )
+            .with(case(&out)));
+        }
+        let (a2, b2) = (f::without(&a1, &verb), f::without(&b1, &verb));
+        if !verb.is_empty() && f::comments_only(&a2) == f::comments_only(&b2) {
+            return Err(Fail::new(
+                "comment-inside-verbatim-duplicated",
+                "a comment inside a verbatim payload to appear once (copied with the payload)",
+                f::first_diff(&f::comments_only(&a0), &f::comments_only(&b0)),
             )
             .with(case(&out)));
         }
     }
-    // comments inside a verbatim payload are copied with it; a second copy emitted elsewhere is
-    // classified separately (one root cause: such comments are also anchored outside the payload)
-    if a != b {
-        let inside: Vec<Atom> = f::verbatim_slices(text).iter().flat_map(|s| f::comments_only(&f::atom_stream(s))).collect();
-        if !inside.is_empty() {
-            let ca = f::comments_only(&a);
-            let cb = f::comments_only(&b);
-            let extra_ok = cb.len() > ca.len() && f::without(&a, &inside) == f::without(&b, &inside);
-            if extra_ok {
-                return Err(Fail::new(
-                    "comment-inside-verbatim-duplicated",
-                    "a comment inside a verbatim payload to appear once (copied with the payload)",
-                    f::first_diff(&ca, &cb),
-                )
-                .with(case(&out)));
-            }
-        }
+    let a = f::without(&f::without(&a0, &meta), &verb);
+    let b = f::without(&f::without(&b0, &meta), &verb);
+    if (!meta.is_empty() || !verb.is_empty()) && a0 != b0 && a == b {
+        // only the classified families are affected (displaced rather than dropped)
+        let sig = if !meta.is_empty() { "comment-inside-metadata-not-preserved" } else { "comment-inside-verbatim-duplicated" };
+        return Err(Fail::new(sig, "comments inside metadata / verbatim payloads to stay where they are", f::first_diff(&a0, &b0)).with(case(&out)));
     }
     // (1) comment sequence
     let (ca, cb) = (f::comments_only(&a), f::comments_only(&b));
     if ca != cb {
         let kind = if cb.len() < ca.len() { "comment-dropped" } else if cb.len() > ca.len() { "comment-duplicated" } else { "comment-changed-or-reordered" };
-        let k = (0..ca.len()).find(|i| ca.get(*i) != cb.get(*i)).unwrap_or(ca.len().saturating_sub(1));
-        let sig = format!("{kind}[{}]", f::comment_context(text, k));
+        let sig = kind.to_string();
         return Err(Fail::new(sig, format!("the {} comments of the input, same kind, same content, same order", ca.len()), f::first_diff(&ca, &cb)).with(case(&out)));
     }
     // (5) atoms accounted for
@@ -71,16 +72,37 @@ pub fn check_text(text: &str, origin: &Value, stats: &mut Stats) -> Result<Optio
     if ta != tb {
         return Err(Fail::new("code-atoms-changed", "every identifier / constructor / destructor / literal (by value) of the input, in order", f::first_diff(&ta, &tb)).with(case(&out)));
     }
-    // (2) interleaving of comments with atoms
+    // (2) attachment
     if a != b {
         // a comment may slide across keywords/punctuation (no code atom crossed) or across atoms inside
         // its own arm/binding/statement/component (no separator crossed); it is *moved to another
         // syntactic element past code* when both its atom neighbours and its separator neighbours change
         let by_atoms = f::displaced_comments(&a, &b);
-        let (sa, sb) = (f::separator_stream(text), f::separator_stream(&out));
+        let keep = |s: Vec<Atom>| f::without(&f::without(&s, &meta), &verb);
+        let (sa, sb) = (keep(f::separator_stream(text)), keep(f::separator_stream(&out)));
         let by_seps = f::displaced_comments(&sa, &sb);
         if let Some(k) = by_atoms.iter().find(|k| by_seps.contains(k)) {
-            let ctx = f::comment_context(text, *k);
+            // context of the k-th *kept* comment
+            let kept_index = {
+                let all = f::comments_only(&a0);
+                let kept = f::comments_only(&a);
+                // map k (index among kept) to index among all comments
+                let mut seen = 0usize;
+                let mut idx = 0usize;
+                for (i, c) in all.iter().enumerate() {
+                    if meta.contains(c) || verb.contains(c) {
+                        continue;
+                    }
+                    if seen == *k {
+                        idx = i;
+                        break;
+                    }
+                    seen += 1;
+                }
+                let _ = kept;
+                idx
+            };
+            let ctx = f::comment_context(text, kept_index);
             let before = ctx.rsplit('_').next().unwrap_or("?").to_string();
             if std::env::var_os("VERIF_SURVEY").is_some() {
                 stats.count(&format!("survey-moved:before {before}"));
@@ -94,7 +116,8 @@ pub fn check_text(text: &str, origin: &Value, stats: &mut Stats) -> Result<Optio
             .with(case(&out)));
         }
         for k in &by_atoms {
-            stats.count(&format!("slid-within-element:{}", f::comment_context(text, *k)));
+            let _ = k;
+            stats.count("slid-within-element");
         }
     }
     // (4) verbatim regions copied unchanged
